@@ -82,6 +82,7 @@ func (g *FG) reachesNextIteration(from Loc, must func(ast.Node) bool, loop ast.S
 }
 
 func runC01(c *Ctx) {
+	c01Normalise(c)
 	c.Clauses = []string{
 		"C01.a every non-empty flush appends the SGR reset before the console write, resets the buffer, and ends synchronized update under exactly the guard under which it was begun",
 		"C01.b the two frame prologues (writer.Write / writer.WriteString) emit the same sequences under the same guards",
@@ -122,7 +123,7 @@ func runC01(c *Ctx) {
 		var consoleWrite, sgrWrite, syncEnd *Emission
 		for _, e := range byFn[flush.Name] {
 			switch {
-			case !e.Resolved && strings.Contains(types.ExprString(e.ArgExpr), "Bytes()"):
+			case !e.Resolved && isWriterBufBytes(info, e.ArgExpr):
 				consoleWrite = e
 			case e.Resolved && containsStr(e.GuardKeys, "writer.buf.Len()!=0") && hasSeq(e, func(s Seq) bool { return s.Kind == "CSI" && s.Final == "m" && s.Params == "" && s.Private == "" }):
 				sgrWrite = e
@@ -275,7 +276,11 @@ func runC01(c *Ctx) {
 		return e.Resolved && hasSeq(e, func(s Seq) bool { return s.Kind == "CSI" && s.Final == "H" && s.Private == "" })
 	}
 	// C01.d (1): every in-loop CUP has a link close before it under its guards + "link open"
+	cellLoop := c01FindCellLoop(c, render)
 	inLoop := func(e *Emission) bool {
+		if cellLoop != nil {
+			return cellLoop.contains(e.Call)
+		}
 		for _, k := range e.GuardKeys {
 			if strings.HasPrefix(k, "col<len(") {
 				return true
@@ -384,11 +389,33 @@ func runC01(c *Ctx) {
 		c.check(okPD, "C01.d", render.Name+"/hyperlink closed at the end of the frame", finalClose.Call.Pos(), "the link test after the loops is on every path to the end of render", "render can finish without testing for an open hyperlink")
 	}
 
-	// ---- C01.e skip edges
+	// ---- C01.e skip edges: a `continue` of the cell loop (not of a loop nested in it)
 	par := c.P.Parents(render.Pkg)
+	loops := cellLoop
+	if loops == nil {
+		c.undecided("C01.e", render.Name+"/cell loop", render.Decl.Pos(), "no loop over the columns of a row of the next screen found in render")
+	}
 	ast.Inspect(render.Decl.Body, func(n ast.Node) bool {
 		br, ok := n.(*ast.BranchStmt)
-		if !ok || br.Tok != token.CONTINUE || br.Label != nil {
+		if !ok || br.Tok != token.CONTINUE || loops == nil {
+			return true
+		}
+		// which loop does it continue?
+		var target ast.Node
+		for cur := par[br]; cur != nil; cur = par[cur] {
+			switch t := cur.(type) {
+			case *ast.ForStmt, *ast.RangeStmt:
+				if br.Label == nil {
+					target = t
+				} else if ls, ok := par[t].(*ast.LabeledStmt); ok && ls.Label.Name == br.Label.Name {
+					target = t
+				}
+			}
+			if target != nil {
+				break
+			}
+		}
+		if target != ast.Node(loops.cell) {
 			return true
 		}
 		blk, _ := par[br].(*ast.BlockStmt)
@@ -407,21 +434,23 @@ func runC01(c *Ctx) {
 			return true
 		}
 		gk := guardKeys(g, Loc{then, 0})
-		isCell := false
-		for _, k := range gk {
-			if strings.HasPrefix(k, "col<len(") {
-				isCell = true
-			}
-		}
-		if !isCell {
-			return true
-		}
 		sixel := containsStr(gk, "+Cell.sixel")
 		unchanged := containsStr(gk, "-Vaxis.refresh")
+		// the skip condition compares the current cell of the next frame with the current cell of the last frame
 		hasEq := false
-		for _, k := range gk {
-			if i := strings.Index(k, "=="); i > 0 && !strings.Contains(k, "!=") && strings.Contains(k[:i], "screenNext") && strings.Contains(k[i:], "screenLast") && strings.HasSuffix(k[:i], "[row][col]") && strings.HasSuffix(k, "[row][col]") {
-				hasEq = true
+		for _, gd := range g.Guards(Loc{then, 0}) {
+			if gd.Cond == nil || gd.Cond.Tag != nil || gd.Cond.Alts != nil {
+				continue
+			}
+			for _, at := range c01Conjuncts(info, gd.Cond.Expr, gd.Pol, 0) {
+				be, ok := unparen(at.e).(*ast.BinaryExpr)
+				if !ok || !((be.Op == token.EQL && at.pol) || (be.Op == token.NEQ && !at.pol)) {
+					continue
+				}
+				a, b := loops.cellRef(info, be.X, be.Pos(), 0), loops.cellRef(info, be.Y, be.Pos(), 0)
+				if (a == "next" && b == "last") || (a == "last" && b == "next") {
+					hasEq = true
+				}
 			}
 		}
 		key := render.Name + "/cell skipped only if sixel or (unchanged and not refreshing)"
@@ -438,7 +467,7 @@ func runC01(c *Ctx) {
 	// ---- C01.g
 	c01Pen(c, info, render, g, rems)
 	// ---- C01.i
-	c01Covered(c, info, render, g, rems)
+	c01Covered(c, info, render, g, rems, cellLoop)
 }
 
 func c01Resize(c *Ctx, info *types.Info) {
@@ -618,7 +647,18 @@ func c01Pen(c *Ctx, info *types.Info, render *FuncInfo, g *FG, rems []*Emission)
 	}
 }
 
-func c01Covered(c *Ctx, info *types.Info, render *FuncInfo, g *FG, rems []*Emission) {
+func c01Covered(c *Ctx, info *types.Info, render *FuncInfo, g *FG, rems []*Emission, cellLoop *c01CellLoop) {
+	// the column variable: the index of the cell loop (whatever it is called)
+	isCol := func(e ast.Expr) bool {
+		id, ok := unparen(e).(*ast.Ident)
+		if !ok {
+			return false
+		}
+		if cellLoop != nil {
+			return info.ObjectOf(id) == cellLoop.colObj
+		}
+		return id.Name == "col"
+	}
 	// stores into screenLast.buf[row][col+i]: in render itself or in a same-package helper it calls
 	isNullStore := func(info2 *types.Info) func(ast.Node) bool {
 		return func(n ast.Node) bool {
@@ -630,7 +670,7 @@ func c01Covered(c *Ctx, info *types.Info, render *FuncInfo, g *FG, rems []*Emiss
 			if !ok {
 				return false
 			}
-			if !strings.Contains(types.ExprString(ix.X), "screenLast.buf") {
+			if !strings.HasPrefix(canonPath(info2, ix.X), "Vaxis.screenLast.buf") {
 				return false
 			}
 			_, isSum := unparen(ix.Index).(*ast.BinaryExpr)
@@ -690,7 +730,7 @@ func c01Covered(c *Ctx, info *types.Info, render *FuncInfo, g *FG, rems []*Emiss
 	isCellType := func(t types.Type) bool { return t != nil && typeName(t) == modPath+".Cell" }
 	colAdded := map[types.Object]bool{}
 	ast.Inspect(render.Decl.Body, func(n ast.Node) bool {
-		if as, ok := n.(*ast.AssignStmt); ok && as.Tok == token.ADD_ASSIGN && len(as.Lhs) == 1 && types.ExprString(as.Lhs[0]) == "col" {
+		if as, ok := n.(*ast.AssignStmt); ok && as.Tok == token.ADD_ASSIGN && len(as.Lhs) == 1 && isCol(as.Lhs[0]) {
 			if id, ok := unparen(as.Rhs[0]).(*ast.Ident); ok {
 				colAdded[info.ObjectOf(id)] = true
 			}
@@ -765,7 +805,7 @@ func c01Covered(c *Ctx, info *types.Info, render *FuncInfo, g *FG, rems []*Emiss
 		if !ok || as.Tok != token.ADD_ASSIGN || len(as.Lhs) != 1 {
 			return false
 		}
-		if types.ExprString(as.Lhs[0]) != "col" {
+		if !isCol(as.Lhs[0]) {
 			return false
 		}
 		id, ok := unparen(as.Rhs[0]).(*ast.Ident)
@@ -819,4 +859,242 @@ func enclosingLoop(c *Ctx, fi *FuncInfo, n ast.Node) ast.Stmt {
 		}
 	}
 	return nil
+}
+
+// ---- the cell loop of render and references to the current cell
+
+type c01CellLoop struct {
+	fi     *FuncInfo
+	row    ast.Stmt     // the loop over the rows of the next screen
+	cell   *ast.ForStmt // the loop over the columns of the row
+	rowObj types.Object // the row index variable
+	colObj types.Object // the column index variable
+	rowVal types.Object // the row itself (value variable of a range over the rows), or nil
+}
+
+// c01FindCellLoop: `for c := ...; c < len(<row r of Vaxis.screenNext.buf>); ...` nested in a loop over the rows.
+func c01FindCellLoop(c *Ctx, fi *FuncInfo) *c01CellLoop {
+	info := fi.Pkg.TypesInfo
+	par := c.P.Parents(fi.Pkg)
+	var out *c01CellLoop
+	inspectNoLit(fi.Decl.Body, func(n ast.Node) bool {
+		fs, ok := n.(*ast.ForStmt)
+		if !ok || out != nil {
+			return out == nil
+		}
+		as, ok := fs.Init.(*ast.AssignStmt)
+		if !ok || len(as.Lhs) != 1 || as.Tok != token.DEFINE {
+			return true
+		}
+		cid, ok := as.Lhs[0].(*ast.Ident)
+		if !ok {
+			return true
+		}
+		colObj := info.Defs[cid]
+		be, ok := unparen(fs.Cond).(*ast.BinaryExpr)
+		if !ok || colObj == nil {
+			return true
+		}
+		var bound ast.Expr
+		switch {
+		case be.Op == token.LSS && rootObj(info, be.X) == colObj:
+			bound = be.Y
+		case be.Op == token.GTR && rootObj(info, be.Y) == colObj:
+			bound = be.X
+		default:
+			return true
+		}
+		if !strings.HasPrefix(canonExpr(info, bound), "len(Vaxis.screenNext.buf[") {
+			return true
+		}
+		// the enclosing row loop
+		for cur := par[fs]; cur != nil; cur = par[cur] {
+			switch t := cur.(type) {
+			case *ast.RangeStmt:
+				if canonPath(info, t.X) != "Vaxis.screenNext.buf" {
+					continue
+				}
+				l := &c01CellLoop{fi: fi, row: t, cell: fs, colObj: colObj}
+				if id, ok := t.Key.(*ast.Ident); ok && id.Name != "_" {
+					l.rowObj = info.ObjectOf(id)
+				}
+				if id, ok := t.Value.(*ast.Ident); ok && id.Name != "_" {
+					l.rowVal = info.ObjectOf(id)
+				}
+				out = l
+				return false
+			case *ast.ForStmt:
+				ras, ok := t.Init.(*ast.AssignStmt)
+				if !ok || len(ras.Lhs) != 1 {
+					continue
+				}
+				rid, ok := ras.Lhs[0].(*ast.Ident)
+				if !ok || t.Cond == nil || !strings.Contains(canonExpr(info, t.Cond), "len(Vaxis.screenNext.buf)") {
+					continue
+				}
+				out = &c01CellLoop{fi: fi, row: t, cell: fs, colObj: colObj, rowObj: info.ObjectOf(rid)}
+				return false
+			}
+		}
+		return true
+	})
+	return out
+}
+
+// contains: is n inside the body of the cell loop?
+func (l *c01CellLoop) contains(n ast.Node) bool {
+	return l != nil && n != nil && l.cell.Body.Pos() <= n.Pos() && n.End() <= l.cell.Body.End()
+}
+
+// writtenBetween: is one of objs assigned (as a whole, or a field/element of it) at a source position strictly
+// between from and to? The alias definitions this is used for are plain statements of the loop body that
+// precede the use in the same iteration, so anything that can run between them lies between them in the text.
+func (l *c01CellLoop) writtenBetween(info *types.Info, objs map[types.Object]bool, from, to token.Pos) bool {
+	found := false
+	ast.Inspect(l.fi.Decl.Body, func(n ast.Node) bool {
+		if n == nil || found {
+			return false
+		}
+		if n.End() < from || n.Pos() > to {
+			return false
+		}
+		hit := func(e ast.Expr, pos token.Pos) {
+			if pos > from && pos < to {
+				if o := rootObj(info, e); o != nil && objs[o] {
+					found = true
+				}
+			}
+		}
+		switch t := n.(type) {
+		case *ast.AssignStmt:
+			if t.Tok != token.DEFINE {
+				for _, x := range t.Lhs {
+					hit(x, t.Pos())
+				}
+			}
+		case *ast.IncDecStmt:
+			hit(t.X, t.Pos())
+		case *ast.UnaryExpr:
+			if t.Op == token.AND {
+				if id, ok := unparen(t.X).(*ast.Ident); ok {
+					hit(id, t.Pos())
+				}
+			}
+		}
+		return true
+	})
+	return found
+}
+
+// cellRef: "next" / "last" if e denotes, at position use, the cell of the next / last screen at the current
+// row and column (directly, through a local defined once as a copy or as a pointer to it, or through the row
+// variable of the row loop); "" otherwise.
+func (l *c01CellLoop) cellRef(info *types.Info, e ast.Expr, use token.Pos, depth int) string {
+	if l == nil || depth > 4 {
+		return ""
+	}
+	e = unparen(e)
+	idx := map[types.Object]bool{l.colObj: true}
+	if l.rowObj != nil {
+		idx[l.rowObj] = true
+	}
+	viaLocal := func(id *ast.Ident, wantAddr bool) string {
+		o := info.ObjectOf(id)
+		src := singleDefOf(info, o)
+		if src == nil || !l.contains(id) {
+			return ""
+		}
+		if wantAddr {
+			u, ok := unparen(src).(*ast.UnaryExpr)
+			if !ok || u.Op != token.AND {
+				return ""
+			}
+			src = u.X
+		}
+		// neither the indices nor (for a copy) the local itself change between the definition and the use
+		objs := map[types.Object]bool{}
+		for k := range idx {
+			objs[k] = true
+		}
+		if !wantAddr {
+			objs[o] = true
+		}
+		if src.Pos() >= use || l.writtenBetween(info, objs, src.End(), use) {
+			return ""
+		}
+		return l.cellRef(info, src, src.Pos(), depth+1)
+	}
+	switch t := e.(type) {
+	case *ast.StarExpr:
+		if id, ok := unparen(t.X).(*ast.Ident); ok {
+			return viaLocal(id, true)
+		}
+	case *ast.Ident:
+		return viaLocal(t, false)
+	case *ast.IndexExpr:
+		if cid, ok := unparen(t.Index).(*ast.Ident); !ok || info.ObjectOf(cid) != l.colObj {
+			return ""
+		}
+		return l.rowRef(info, t.X, use, depth)
+	}
+	return ""
+}
+
+// rowRef: "next" / "last" if e is the current row of that screen.
+func (l *c01CellLoop) rowRef(info *types.Info, e ast.Expr, use token.Pos, depth int) string {
+	e = unparen(e)
+	switch t := e.(type) {
+	case *ast.IndexExpr:
+		rid, ok := unparen(t.Index).(*ast.Ident)
+		if !ok || l.rowObj == nil || info.ObjectOf(rid) != l.rowObj {
+			return ""
+		}
+		switch canonPath(info, t.X) {
+		case "Vaxis.screenNext.buf":
+			return "next"
+		case "Vaxis.screenLast.buf":
+			return "last"
+		}
+	case *ast.Ident:
+		o := info.ObjectOf(t)
+		if l.rowVal != nil && o == l.rowVal {
+			return "next" // the value variable of the range over the rows of the next screen
+		}
+		if src := singleDefOf(info, o); src != nil && depth < 4 && l.row.Pos() <= t.Pos() && t.End() <= l.row.End() {
+			objs := map[types.Object]bool{o: true}
+			if l.rowObj != nil {
+				objs[l.rowObj] = true
+			}
+			if src.Pos() < use && !l.writtenBetween(info, objs, src.End(), use) {
+				return l.rowRef(info, src, src.Pos(), depth+1)
+			}
+		}
+	}
+	return ""
+}
+
+type c01Atom struct {
+	e   ast.Expr
+	pol bool
+}
+
+// c01Conjuncts: the atomic conditions that all hold when e has truth value pol (negation, &&, De Morgan on ||,
+// boolean locals defined once by a condition).
+func c01Conjuncts(info *types.Info, e ast.Expr, pol bool, depth int) []c01Atom {
+	e = unparen(e)
+	switch t := e.(type) {
+	case *ast.UnaryExpr:
+		if t.Op == token.NOT {
+			return c01Conjuncts(info, t.X, !pol, depth)
+		}
+	case *ast.BinaryExpr:
+		if (t.Op == token.LAND && pol) || (t.Op == token.LOR && !pol) {
+			return append(c01Conjuncts(info, t.X, pol, depth), c01Conjuncts(info, t.Y, pol, depth)...)
+		}
+	case *ast.Ident:
+		if def := flagDefOf(info, t); def != nil && depth < 4 {
+			return c01Conjuncts(info, def, pol, depth+1)
+		}
+	}
+	return []c01Atom{{e, pol}}
 }
